@@ -1,0 +1,13 @@
+// Copyright 2017 The Wuffs Authors.
+//
+// SPDX-License-Identifier: Apache-2.0 OR MIT
+
+//go:build !verif
+
+package check
+
+import (
+	a "github.com/google/wuffs/lang/ast"
+)
+
+func verifObserveFacts(q *checker, o *a.Node) {}
